@@ -80,6 +80,7 @@ Definition adv (s : state) (t : thread) (a : action op) (r : list (action op)) :
   | ExitIfClosed _ c => if chan_closed op s c then with_rest op t [] else with_rest op t r
   | ExitIfFlag _ x => if flag_set op s x then with_rest op t [] else with_rest op t r
   | Again _ => with_rest op t (body (top op t) (trows op t))
+  | Once _ x => if flag_set op s x then with_held op t [] [] else with_rest op t r
   | _ => with_rest op t r
   end.
 
@@ -116,6 +117,11 @@ Proof.
     left. unfold adv. destruct (flag_set op s x); inversion H; subst; reflexivity.
   - inversion H; subst. right. exists t, (SetFlag op x), r. repeat split; auto; intros; discriminate.
   - inversion H; subst. right. exists t, (Again op), r. repeat split; auto; intros; discriminate.
+  - right. exists t, (Once op x), r. repeat split; auto; [intros; discriminate|].
+    left. unfold adv. destruct (flag_set op s x); inversion H; subst; reflexivity.
+  - inversion H; subst. right. exists t, (Wake op c), r. repeat split; auto; intros; discriminate.
+  - destruct (flag_set op s x); [|destruct (chan_closed op s c)]; inversion H; subst; try (left; reflexivity);
+      right; exists t, (SendIfOpen op x c), r; repeat split; auto; intros; discriminate.
 Qed.
 
 (* origin of every thread of the successor state *)
@@ -183,6 +189,7 @@ Proof.
   - left. unfold holds in *. cbn in H. eapply existsb_remove_lock; eauto.
   - destruct (chan_closed op s c); left; exact H.
   - destruct (flag_set op s x); left; exact H.
+  - destruct (flag_set op s x); [cbn in H; discriminate | left; exact H].
 Qed.
 
 Lemma adv_holdsW : forall s (t : thread) a r l',
@@ -195,6 +202,7 @@ Proof.
   - left. unfold holdsW in *. cbn in H. eapply existsb_remove_lock; eauto.
   - destruct (chan_closed op s c); left; exact H.
   - destruct (flag_set op s x); left; exact H.
+  - destruct (flag_set op s x); [cbn in H; discriminate | left; exact H].
 Qed.
 
 Lemma can_acquire_W : forall ts i (t : thread) l j tj,
@@ -300,6 +308,7 @@ Proof.
     right. exists []. cbn. split; [reflexivity|].
     unfold thread_ok in Hok. rewrite Hr in Hok. cbn in Hok. unfold hlocks in Hok.
     destruct (held op t); [reflexivity|discriminate].
+  - (* Once *) destruct (flag_set op s x); [left; reflexivity | apply Hnext; reflexivity].
 Qed.
 
 Lemma pos_step : forall s i s', inv op rk s -> pos_inv s -> step s i = Some s' -> pos_inv s'.
